@@ -64,10 +64,10 @@ def Pat.bindTy (it : Item) : Pat → Ty → Option TEnv
   | .wild, _ => some []
   | .rest, _ => some []
   | .bind m x, t =>
-    some [(x, match m with
-      | .ref_ => .ref t
-      | .refMut => .refMut t
-      | _ => t)]
+    match m with
+    | .ref_ => some [(x, .ref t)]
+    | .refMut => none          -- `ref mut x` only occurs inside the destructuring patterns (`ctor`)
+    | _ => some [(x, t)]
   | .ctor k s mut_, t =>
     match it.variants[k]? with
     | some d =>
@@ -186,11 +186,14 @@ def Expr.ty (cx : TyCx) (Γ : TEnv) : Expr → Option Ty
     | some (.refMut (.field _ _)) => some .unit
     | _ => none
   | .ref e => (e.ty cx Γ).map .ref
-  | .refMut e => (e.ty cx Γ).map .refMut
+  | .refMut e =>
+    match e.ty cx Γ with
+    | some (.field _ _) => none       -- `&mut` of a field value (not a place) does not occur in the fragment
+    | some t => some (.refMut t)
+    | none => none
   | .deref e =>
     match e.ty cx Γ with
     | some (.ref t) => some t
-    | some (.refMut t) => some t
     | _ => none
   | .cast e _ =>
     match e.ty cx Γ with
